@@ -27,7 +27,7 @@ def filler(g, rng):
         return Raw('注：“跨行\n注释%d”' % g.fresh())
     if k < 0.8:
         v = '文%d' % g.fresh()
-        lit = '第一行\n第二行\n三'
+        lit = rng.choice(['第一行\n第二行\n三', '第一行\n第二行\n三', '首`行\n次行\n三', '首行`\n次行', '首`未闭\n次行\n`三'])
         d = Decl([v], Str(lit))
         return d
     v = '数%d' % g.fresh()
@@ -75,6 +75,11 @@ def gen(g, rng):
             body.append(Func(chain[i], [], [ExprS(Call('显示', [Call(chain[i - 1], [])])), Ret(Num('2'))]))
         body.append(Func('内败', [], [Throw('异常', [Str('早')])]))
     names = ['层%d' % i for i in range(1, depth + 1)]
+    # some levels are user-defined constructors (如何新建型i？): their frame is an active call like any other
+    is_ctor = [rng.random() < 0.25 for _ in range(depth)]
+
+    def call_of(i):
+        return New('型%d' % (i + 1), []) if is_ctor[i] else Call(names[i], [])
     fstmt, tail = fault(g, rng)
     fstmt.tag = 'fault'
     for i in range(depth, 0, -1):
@@ -82,7 +87,7 @@ def gen(g, rng):
         if i == depth:
             inner = fstmt
         else:
-            inner = ExprS(Call('显示', ml(rng, [Call(names[i], [])])))
+            inner = ExprS(Call('显示', ml(rng, [call_of(i)])))
             inner.tag = 'call_%d' % i
         k = rng.random()
         if k < 0.3:
@@ -93,8 +98,12 @@ def gen(g, rng):
             fb.append(While(Bin('lt', Var(c), Num('1')), [ExprS(Assign(Var(c), Bin('+', Var(c), Num('1')))), inner]))
         else:
             fb.append(inner)
-        fb.append(Ret(Num('1')))
-        body.append(Func(names[i - 1], [], fb))
+        if is_ctor[i - 1]:
+            body.append(Class('型%d' % i, [('名', Str('型'))], []))
+            body.append(Func('型%d' % i, [], fb, ctor=True))
+        else:
+            fb.append(Ret(Num('1')))
+            body.append(Func(names[i - 1], [], fb))
     main = [filler(g, rng) for _ in range(rng.randint(0, 4))]
     if handled:
         main.append(ExprS(Call('显示', [Call('先败', [])])))
@@ -102,7 +111,7 @@ def gen(g, rng):
     if depth == 0:
         main.append(fstmt)
     else:
-        c0 = ExprS(Call('显示', ml(rng, [Call(names[0], [])])))
+        c0 = ExprS(Call('显示', ml(rng, [call_of(0)])))
         c0.tag = 'call_0'
         main.append(c0)
     main.append(ExprS(Call('显示', [Str('不达')])))
